@@ -220,7 +220,10 @@ func run(cfg RunConfig, pkgPaths []string) (*RunOutput, error) {
 			f := writeQuery(qdir, fmt.Sprintf("q%04d", i), j.g.query(j.o, "", false))
 			secs := cfg.Timeout
 			if j.o.Vacuity {
-				secs = 2
+				secs = 3
+				if cfg.Tier == "thorough" {
+					secs = 15
+				}
 			}
 			var r Result
 			var all []Result
